@@ -35,7 +35,17 @@ def m_typeinfo_new(ex, st, callee, args, dest_ty, frame, depth):
     return [(st, Outcome("ret", Agg("compiler::state::TypeInfo", {0: s, 1: args[1]})))]
 
 
+def m_arc_deref(ex, st, callee, args, dest_ty, frame, depth):
+    """<Arc<T> as Deref>::deref: the lemma stores the Arc's contents in their own cell and the Arc as a reference to it"""
+    c, p = ex.deref_target(st, args[0])
+    v = ex.read(st, c, p)
+    if isinstance(v, Ref):
+        return [(st, Outcome("ret", Ref(dest_ty, v.cell, v.path)))]
+    raise Unencodable(f"Arc::deref of {v!r} (the lemma must supply the contents)")
+
+
 ORACLES = [(re.compile(r"as Expression>::(apply_type_info|type_info|resolve_constant)$"), StateOracle()),
+           (re.compile(r"^<Arc<.*> as Deref>::deref$"), m_arc_deref),
            (re.compile(r"^<TypeState as Clone>::clone$"), m_clone_state),
            (re.compile(r"TypeState::merge$"), m_merge),
            (re.compile(r"^TypeInfo::new::<"), m_typeinfo_new)]
@@ -243,9 +253,88 @@ def wrappers(S):
     return obls, fns
 
 
+FC_FIELDS = ["abort_on_error", "expr", "arguments_with_unknown_type_validity", "closure_fallible", "closure", "span", "ident", "function_id", "arguments", "warnings"]
+
+
+def function_call(S, bounds):
+    """FunctionCall: the arguments are typed left to right, each in the state its predecessor left, then the
+    function expression; when the call carries a closure, the closure body's effects on the enclosing state (it
+    runs any number of times) must reach the final state too."""
+    obls, fns = [], []
+    fields = list(S.types.struct_fields("FunctionCall", "compiler::expression::function_call") or [])
+    if fields != FC_FIELDS:
+        raise Unencodable(f"FunctionCall fields changed: {fields}")
+    f = S.method("Expression", "FunctionCall", "type_info")
+    n_closure = 0
+    for n in range(0, bounds.get("array", 2) + 1):
+        ex = S.executor(oracles=ORACLES, opaque=LIST_OPAQUE + [r"^Vec::<\(.*Parameter.*\)>::is_empty$", r"^Vec::<.*>::is_empty$"])
+        ex.feas_timeout_ms = 200
+        st = State()
+        items = []
+        for i in range(n):
+            c = f"self.arguments[{i}]"
+            st.heap[c] = ex.fresh("parser::ast::Node<compiler::expression::function_argument::FunctionArgument>", f"arg{i}")
+            items.append(c)
+        st.heap["args"] = Seq("Vec<Node<FunctionArgument>>", items, "slice")
+        st.heap["*self"] = Agg("compiler::expression::function_call::FunctionCall", {8: Ref("Arc<Vec<Node<FunctionArgument>>>", "args", ())}, origin="self*")
+        paths = ex.run(f, [Ref("&function_call::FunctionCall", "*self", ()), ex.fresh("&TypeState", "state0")], st)
+        fns += [(f.name, f.text_hash)] + list(ex.stats["fns_entered"].items())
+        for pi, p in enumerate(paths):
+            bad = []
+            calls = [(e["kind"], e["child"], _norm(e["state"])) for e in p.st.trace]
+            got = [(c[1], c[2]) for c in calls if c[0] in ("apply_type_info", "type_info")]
+            final = None
+            if p.outcome.kind != "ret":
+                bad.append(f"{p.outcome.kind}: {p.outcome.msg}")
+            else:
+                final = _state_term(ex, p.st, ex.agg_field(p.st, p.outcome.value, 0, "compiler::state::TypeState"))
+            d = p.st.simp(ex.discr_of("self*.4", "std::option::Option<compiler::function::closure::Closure>"))
+            has_closure = z3.is_bv_value(d) and d.as_long() == 1
+            arg_calls = [g for g in got if g[0].startswith("self.arguments[") or g[0].startswith("arg")]
+            states = ["state0*"]
+            for g in arg_calls:
+                states.append(_after(g[0], states[-1]))
+            if len(arg_calls) != n or [g[1] for g in arg_calls] != states[:n]:
+                bad.append(f"arguments typed as {arg_calls}, expected {n} arguments threaded from the incoming state")
+            rest = [g for g in got if g not in arg_calls]
+            fexpr = [g for g in rest if g[0].startswith("self*.1") or g[0].startswith("self.1")]
+            clo = [g for g in rest if ".4.Some" in g[0]]
+            if len(fexpr) != 1 or fexpr[0][1] != states[n]:
+                bad.append(f"function expression typed as {fexpr}, expected once in {states[n]}")
+            role = f"C01:FunctionCall::type_info(args={n}):state-follows-the-runtime-paths"
+            if not bad and final is not None:
+                after_f = _after(fexpr[0][0], states[n])
+                if final != after_f and not clo:
+                    bad.append(f"final state {final}, expected {after_f}")
+            o = Obl(role, {"C01", "C02"}, f"{role}#path{pi}", p, z3.BoolVal(not bad), {"problems": bad[:3], "calls": calls[:6], "final_state": final})
+            o.ex = ex
+            obls.append(o)
+            if has_closure or not z3.is_bv_value(d):
+                n_closure += 1
+                role = "C12:FunctionCall::type_info:closure-body-effects-reach-the-state"
+                ok = bool(clo)
+                o = Obl(role, {"C01", "C02", "C12"}, f"{role}#args{n}#path{pi}", p, z3.BoolVal(ok),
+                        {"problems": [] if ok else ["self.closure is Some but the closure block is never typed: assignments made by the closure body do not reach the state after the call"],
+                         "calls": calls[:6], "final_state": final})
+                o.ex = ex
+                obls.append(o)
+    if not n_closure:
+        raise Unencodable("FunctionCall::type_info: no path with a closure (vacuous)")
+    return obls, fns
+
+
+def closure_battery():
+    """a closure body assigns to a variable of the enclosing scope"""
+    return [
+        ({"source": "x = 2\nfor_each([1]) -> |_i, _v| { x = 0 }\n.r = 10 / x\n", "event": {}}, {"accepted_never_fails": True}),
+        ({"source": "x = 2\nfor_each([1]) -> |_i, _v| { x = \"s\" }\n.r = x + 1\n", "event": {}}, {"accepted_never_fails": True}),
+        ({"source": "x = 2\nfor_each([1]) -> |_i, _v| { x = \"s\" }\n.r = x\n", "event": {}}, {"outcome": "ok", "types_sound": True}),
+    ]
+
+
 def obligations(S, bounds=None):
     obls, fns = [], []
-    for g in (if_statement, wrappers, lambda S_: lists(S_, bounds or {"block": 3, "array": 2})):
+    for g in (if_statement, wrappers, lambda S_: lists(S_, bounds or {"block": 3, "array": 2}), lambda S_: function_call(S_, bounds or {"block": 3, "array": 2})):
         o, f = g(S)
         obls += o
         fns += f
